@@ -43,6 +43,7 @@ type EnvModel struct {
 	Supply *Term
 	Params map[string]Value
 	nAuto  int
+	ovf    bool            // the SDK's Int/Dec range checks are modelled on this path (vf.CheckOverflow)
 	exact  map[*Term]*Term // 64-bit values known on this path to be the exact image of an integer term
 }
 
@@ -162,6 +163,39 @@ func (e *Exec) findAcct(addr []*Term) *acct {
 	a := &acct{Addr: append([]*Term{}, addr...), Bal: t, Auto: true, Init: t}
 	env.Accts = append(env.Accts, a)
 	return a
+}
+
+// timestampsOK: every time.Time inside v lies in the range of a protobuf timestamp (years 1..9999)
+func (e *Exec) timestampsOK(v Value) *Term {
+	r := e.tt.Bool(true)
+	var walk func(v Value)
+	walk = func(v Value) {
+		switch x := v.(type) {
+		case TimeVal:
+			for _, c := range []*Term{e.tt.IntCmp(">=", x.NS, e.tt.Int64(0)), e.tt.IntCmp("<=", x.NS, e.tt.Int(maxTimeNS))} {
+				if k, ok := e.known(c); ok && k {
+					continue
+				}
+				r = e.tt.And(r, c)
+			}
+		case *StructVal:
+			for _, f := range x.Fields {
+				walk(f)
+			}
+		case *ArrayVal:
+			for _, f := range x.Elems {
+				walk(f)
+			}
+		case SliceVal:
+			if x.Arr != nil && x.Blob == nil {
+				for _, f := range x.elems() {
+					walk(f)
+				}
+			}
+		}
+	}
+	walk(v)
+	return r
 }
 
 func (e *Exec) modAcct(name string) *acct { return e.findAcct(e.constBytes(moduleAddr(name))) }
@@ -377,6 +411,12 @@ func init() {
 			panic(goPanic{"marshal of nil pointer"})
 		}
 		snap := p.load()
+		// a time outside years 1..9999 is not a protobuf timestamp: the generated marshaller fails on it
+		if ok := e.timestampsOK(snap); !(ok.IsConst() && ok.U == 1) {
+			if !e.branch(ok) {
+				panic(goPanic{"marshal: timestamp outside years 1..9999"})
+			}
+		}
 		return SliceVal{Arr: &Cell{V: &ArrayVal{Elems: []Value{e.tt.BV(8, 0)}}}, Len: 1, Cap: 1, Blob: snap}
 	}
 	unmarshal := func(e *Exec, r ModelVal, a []Value) Value {
@@ -400,6 +440,11 @@ func init() {
 	modelMethods["codec.MustMarshalBinaryBare"] = marshal
 	modelMethods["codec.MustUnmarshalBinaryBare"] = unmarshal
 	modelMethods["codec.MarshalBinaryBare"] = func(e *Exec, r ModelVal, a []Value) Value {
+		if p, ok := a[0].(IfaceVal).V.(PtrVal); ok && p.Root != nil {
+			if ok := e.timestampsOK(p.load()); !(ok.IsConst() && ok.U == 1) && !e.branch(ok) {
+				return TupleVal{SliceVal{}, e.errVal("timestamp outside years 1..9999")}
+			}
+		}
 		return TupleVal{marshal(e, r, a), IfaceVal{}}
 	}
 	modelMethods["codec.UnmarshalBinaryBare"] = func(e *Exec, r ModelVal, a []Value) Value {
@@ -495,7 +540,14 @@ func (e *Exec) param(env *EnvModel, key string) Value {
 		e.addPC(e.tt.IntCmp(">=", t, e.tt.Int64(0)))
 		e.addPC(e.tt.IntCmp("<", t, one))
 		v = &BigVal{T: t}
-	case "MinDepositMultiple", "MaxRequestTimeout", "ComplaintRetrospect", "ArbitrationTimeLimit":
+	case "ComplaintRetrospect", "ArbitrationTimeLimit":
+		// a positive time.Duration over its whole range, kept as an integer (its 64-bit image is exact)
+		t := e.input("param."+key, SInt)
+		t.NN = true
+		e.addPC(e.tt.IntCmp(">", t, e.tt.Int64(0)))
+		e.addPC(e.tt.IntCmp("<", t, e.tt.Int(new(big.Int).Lsh(big.NewInt(1), 63))))
+		v = e.exactBV64(t)
+	case "MinDepositMultiple", "MaxRequestTimeout":
 		v = posI64("param." + key)
 	case "TxSizeLimit":
 		t := e.input("param.TxSizeLimit", SBV64)
